@@ -40,6 +40,13 @@ def check(run):
     tracker_operator(run, run.prog, sg.cls, "OPERATOR", "sage.operator")
     getters(sg, "FORMULA")
 
+    # the clauses C01 relies on are obligations of this check too: linear trackers, per-key copies, imputers
+    from .c06 import depends_on
+    depends_on(run, "C10")
+    depends_on(run, "C12", {"TYPESTATE", "NOMUT"})
+    depends_on(run, "C06", {"MERGE", "KEYS", "COUNT"})
+    depends_on(run, "C17", {"ORDER", "PROPAGATE"})
+
 
 _I = "ixai/explainer/sage/incremental.py"
 _B = "ixai/explainer/base.py"
